@@ -24,7 +24,10 @@ RULE = (
     "package.license); every configuration of the tier's product is materialised on tmpfs, a real domain is built on it "
     "and every one of 120 packages (4 identity classes a/p-1*, a/p-2*, a/q, b/r x 6 KEYWORDS values x 5 LICENSE "
     "values) is asked for through the filtered repository; visible must equal not masked and keyword accepted and "
-    "license accepted as computed by the reference.  A class is the deciding rule of each of the three parts (mask "
+    "license accepted as computed by the reference.  A further part builds one domain over two repositories that hold the "
+    "same packages but define the license groups differently (FREE={GPL}, EULAS={EULA} vs FREE={GPL,EULA}, EULAS={BSD}), "
+    "filters them one after the other in both orders under ACCEPT_LICENSE / package.license stacks using @FREE, -@FREE, "
+    "@EULAS, -@EULAS, and judges every package with the groups of its own repository.  A class is the deciding rule of each of the three parts (mask "
     "source / unmask / profile removal; keyword rule; license rule) and the combination of failing parts; "
     "distinct_nontrivial counts classes observed."
 )
@@ -36,12 +39,16 @@ ASSUMPTIONS = [
     "ARCH=amd64 from the profile; profile make.defaults sets ACCEPT_KEYWORDS=amd64 and the user setting is stacked on it",
     "a '~k' token in ACCEPT_KEYWORDS also accepts 'k' (standard stacking rule, Appendix A7); not relied upon by the alphabet since k is ARCH",
     "one file per configuration file name (no directories of fragments); one line per entry",
+    "@group / -@group tokens expand through the license groups of the package's own repository (two-repository part); "
+    "both repositories are registered with the domain and filtered through the same domain object",
 ]
 BOUNDS = {
     "quick": "all 360 mask configurations x 3 keyword x 2 license configurations; 6 mask x all 120 keyword x 2 license; "
-    "6 mask x 3 keyword x all 42 license configurations; every configuration judged on 120 packages",
+    "6 mask x 3 keyword x all 42 license configurations; every configuration judged on 120 packages; two-repository part: "
+    "8 ACCEPT_LICENSE x 7 package.license x 2 evaluation orders = 112 configurations judged on 2 x 120 packages",
     "thorough": "all 360 mask x all 120 keyword x 4 license; all 360 mask x 6 keyword x all 42 license; "
-    "24 mask x all 120 keyword x all 42 license configurations; every configuration judged on 120 packages",
+    "24 mask x all 120 keyword x all 42 license configurations; every configuration judged on 120 packages; two-repository "
+    "part: 2 mask x 3 keyword x 8 ACCEPT_LICENSE x 7 package.license x 2 evaluation orders = 672 configurations on 2 x 120 packages",
 }
 
 # ----------------------------------------------------------------------------------------------------------------
@@ -84,6 +91,28 @@ USER_AK = ["", "a/p\n", "a/p **\n", "a/p *\n", "a/p ~*\n", "a/p ~x86\n", "~a/p-2
 PROFILE_AK = ["", "a/q ~x86\n", "a/q\n"]
 ACCEPT_LICENSE = ["*", "-* GPL", "@FREE", "* -@EULAS", "-* @FREE BSD", "* -GPL"]
 USER_LICENSE = ["", "a/p EULA\n", "a/p -GPL\n", "a/p @EULAS\n", "a/p -*\n", "a/* *\n", "~a/p-2 -@FREE\na/p BSD\n"]
+
+
+# two-repository part: both repositories hold the same 120 packages but define the license groups differently
+TWO_REPO_GROUPS = [{"FREE": ["GPL"], "EULAS": ["EULA"]}, {"FREE": ["GPL", "EULA"], "EULAS": ["BSD"]}]
+TWO_REPO_ACCEPT_LICENSE = ACCEPT_LICENSE + ["* -@FREE", "@EULAS @FREE -GPL"]
+TWO_REPO_ORDERS = [[0, 1], [1, 0]]
+
+
+def two_repo_configs(tier):
+    """[(cfg, order)] -- license stacks with @FREE / -@FREE / @EULAS over both evaluation orders."""
+    ms = [(0, 0, 0, 0)] if tier == "quick" else [(0, 0, 0, 0), (0, 1, 0, 1)]
+    ks = [(0, 0, 0)] if tier == "quick" else [(0, 0, 0), (1, 1, 1), (0, 2, 0)]
+    out = []
+    for m in ms:
+        for k in ks:
+            for al in TWO_REPO_ACCEPT_LICENSE:
+                for ul in range(len(USER_LICENSE)):
+                    cfg = make_config(m, k, (0, ul))
+                    cfg["settings"]["ACCEPT_LICENSE"] = al
+                    for order in TWO_REPO_ORDERS:
+                        out.append((cfg, order))
+    return out
 
 
 def mask_configs():
@@ -271,9 +300,11 @@ def prepare(cfg):
     }
 
 
-def reference(cfg, pkg, pre=None):
+def reference(cfg, pkg, pre=None, groups=None):
     """-> (visible, {'mask': rule, 'kw': rule, 'lic': rule}, (not masked, keyword ok, license ok))."""
     why = {}
+    if groups is None:
+        groups = LICENSE_GROUPS  # license groups of the package's own repository
     if pre is None:
         pre = prepare(cfg)
     # ---- masks
@@ -345,11 +376,11 @@ def reference(cfg, pkg, pre=None):
             if t == "-*":
                 accd.clear()
             elif t.startswith("-@"):
-                accd -= set(LICENSE_GROUPS.get(t[2:], ()))
+                accd -= set(groups.get(t[2:], ()))
             elif t.startswith("-"):
                 accd.discard(t[1:])
             elif t.startswith("@"):
-                accd |= set(LICENSE_GROUPS.get(t[1:], ()))
+                accd |= set(groups.get(t[1:], ()))
             elif t == "*":
                 accd |= alt
             else:
@@ -391,31 +422,35 @@ class _Ref:
 class Harness:
     """One scratch root per task; directories are written once per distinct content and never rewritten."""
 
-    def __init__(self, root, pkgs):
+    def __init__(self, root, pkgs, groups_list=None):
         from pkgcore.ebuild.repo_objs import Licenses
         from pkgcore.repository.util import SimpleTree
         from pkgcore.test.misc import FakePkg
 
         self.root = root
         self.dirs = {}
-        repo_root = os.path.join(root, "repo")
-        os.makedirs(os.path.join(repo_root, "profiles"))
-        with open(os.path.join(repo_root, "profiles", "license_groups"), "w") as f:
-            for g, members in LICENSE_GROUPS.items():
-                f.write(f"{g} {' '.join(members)}\n")
         os.makedirs(os.path.join(root, "sysroot"))
-        cpv = {}
-        inst = {}
-        for c, p, fv, kw, lic in pkgs:
-            cpv.setdefault(c, {}).setdefault(p, []).append(fv)
-        tree = SimpleTree(cpv, pkg_klass=lambda c, p, v: inst[(c, p, v)], repo_id="c13-fake")
-        tree.location = repo_root
-        tree.supported = True
-        tree.pkg_masks = frozenset()
-        tree.licenses = Licenses(tree)
-        for c, p, fv, kw, lic in pkgs:
-            inst[(c, p, fv)] = FakePkg(f"{c}/{p}-{fv}", repo=tree, keywords=tuple(kw.split()), data={"LICENSE": lic})
-        self.tree = tree
+        self.trees = []
+        for idx, groups in enumerate(groups_list or [LICENSE_GROUPS]):
+            # every repository has its own location, hence its own profiles/license_groups and license manager
+            repo_root = os.path.join(root, "repo" if idx == 0 else f"repo{idx}")
+            os.makedirs(os.path.join(repo_root, "profiles"))
+            with open(os.path.join(repo_root, "profiles", "license_groups"), "w") as f:
+                for g, members in groups.items():
+                    f.write(f"{g} {' '.join(members)}\n")
+            cpv = {}
+            inst = {}
+            for c, p, fv, kw, lic in pkgs:
+                cpv.setdefault(c, {}).setdefault(p, []).append(fv)
+            tree = SimpleTree(cpv, pkg_klass=lambda c, p, v, inst=inst: inst[(c, p, v)], repo_id="c13-fake" if idx == 0 else f"c13-fake{idx}")
+            tree.location = repo_root
+            tree.supported = True
+            tree.pkg_masks = frozenset()
+            tree.licenses = Licenses(tree)
+            for c, p, fv, kw, lic in pkgs:
+                inst[(c, p, fv)] = FakePkg(f"{c}/{p}-{fv}", repo=tree, keywords=tuple(kw.split()), data={"LICENSE": lic})
+            self.trees.append(tree)
+        self.tree = self.trees[0]
         self.pkgs = pkgs
 
     def _dir(self, kind, files, extra=()):
@@ -464,6 +499,27 @@ class Harness:
         filtered = dom.filter_repo(self.tree)
         return {(p.category, p.package, p.fullver) for p in filtered.itermatch(prestrict.AlwaysTrue)}
 
+    def visible_multi(self, cfg, order):
+        """One domain over all repositories; they are filtered and listed one after the other in the given order.
+        -> {repository index: set of (cat, pkg, fullver)}"""
+        from pkgcore.ebuild import domain as domain_mod
+        from pkgcore.ebuild import profiles
+        from pkgcore.ebuild.atom import atom
+        from pkgcore.restrictions import packages as prestrict
+
+        prof = profiles.OnDiskProfile(self._profile(cfg), "child")
+        etc = self._dir("etc", cfg["user"])
+        for t in self.trees:
+            t.pkg_masks = frozenset(atom(a) for a in cfg["repo_masks"])
+        dom = domain_mod.domain(
+            prof, [_Ref(t) for t in self.trees], [], root=os.path.join(self.root, "sysroot"), config_dir=etc, **cfg["settings"]
+        )
+        out = {}
+        for idx in order:
+            filtered = dom.filter_repo(self.trees[idx])
+            out[idx] = {(p.category, p.package, p.fullver) for p in filtered.itermatch(prestrict.AlwaysTrue)}
+        return out
+
 
 def _mkroot():
     return tempfile.mkdtemp(dir="/dev/shm", prefix=f"verif-{PROPERTY}-{os.getpid()}-")
@@ -502,6 +558,42 @@ def check_config(h, cfg, classes=None):
 
 # ----------------------------------------------------------------------------------------------------------------
 # runner interface
+def check_two_repos(h, cfg, groups_list, order, classes=None):
+    """Both repositories through one domain, in the given order; every package is judged with the license groups of
+    its own repository."""
+    got = h.visible_multi(cfg, order)
+    out = []
+    pre = prepare(cfg)
+    for idx in order:
+        for pkg in h.pkgs:
+            exp, why, parts = reference(cfg, pkg, pre, groups_list[idx])
+            g = (pkg[0], pkg[1], pkg[2]) in got[idx]
+            if classes is not None:
+                other = any(reference(cfg, pkg, pre, groups_list[j])[0] != exp for j in range(len(groups_list)) if j != idx)
+                k = "two-repos:" + ("verdict-depends-on-own-repository-groups" if other else "same-verdict-under-both-group-definitions")
+                classes[k] = classes.get(k, 0) + 1
+                k = f"two-repos:lic:{why['lic']}"
+                classes[k] = classes.get(k, 0) + 1
+            if g != exp:
+                out.append(
+                    {
+                        "cfg": cfg,
+                        "two_repos": {"groups": groups_list, "order": list(order)},
+                        "repo": idx,
+                        "pkg": list(pkg),
+                        "got": g,
+                        "exp": exp,
+                        "why": why,
+                        "msg": f"repository {idx} (license_groups {groups_list[idx]}), filtered {'first' if order[0] == idx else 'second'} "
+                        f"through one domain: {pkg[0]}/{pkg[1]}-{pkg[2]} KEYWORDS={pkg[3]!r} LICENSE={pkg[4]!r}: filtered repo says "
+                        f"{'visible' if g else 'hidden'}, reference says {'visible' if exp else 'hidden'} "
+                        f"(mask: {why['mask']}, keywords: {why['kw']}, license: {why['lic']}) under the other repository's groups "
+                        f"{[groups_list[j] for j in range(len(groups_list)) if j != idx]} user={cfg['user']} settings={cfg['settings']}",
+                    }
+                )
+    return out
+
+
 # ----------------------------------------------------------------------------------------------------------------
 def _parts(tier):
     M, K, L = mask_configs(), kw_configs(), lic_configs()
@@ -531,11 +623,42 @@ def tasks(tier):
         n = len(M) * len(K) * len(L)
         for lo in range(0, n, per):
             out.append((tier, name, lo, min(lo + per, n)))
+    n2 = len(two_repo_configs(tier))
+    per2 = 28 if tier == "quick" else 112
+    for lo in range(0, n2, per2):
+        out.append((tier, "two-repos", lo, min(lo + per2, n2)))
     return out
+
+
+def _work_two_repos(task):
+    tier, part, lo, hi = task
+    cfgs = two_repo_configs(tier)[lo:hi]
+    root = _mkroot()
+    classes = {}
+    viol = []
+    evals = 0
+    try:
+        h = Harness(root, packages(), TWO_REPO_GROUPS)
+        for cfg, order in cfgs:
+            bad = check_two_repos(h, cfg, TWO_REPO_GROUPS, order, classes)
+            evals += len(h.pkgs) * len(order)
+            viol.extend(bad[:2])
+    finally:
+        shutil.rmtree(root, ignore_errors=True)
+    viol.sort(key=lambda c: len(repr(c["cfg"])))
+    return {
+        "evals": evals,
+        "classes": classes,
+        "viol": viol,
+        "samples": [{"config": cfgs[0][0], "order": cfgs[0][1], "groups": TWO_REPO_GROUPS, "packages": 240}] if cfgs else [],
+        "counters": {"configurations": len(cfgs), "two_repository_configurations": len(cfgs)},
+    }
 
 
 def work(task):
     tier, part, lo, hi = task
+    if part == "two-repos":
+        return _work_two_repos(task)
     cfgs = _part_configs(tier, part)[lo:hi]
     root = _mkroot()
     classes = {}
@@ -567,6 +690,11 @@ def replay(case):
         # replay the whole configuration over the same package universe and in the same order as work():
         # a defect that depends on which package was judged first (e.g. a cache keyed too coarsely) must
         # reproduce, so the single package is not evaluated in isolation
+        if "two_repos" in case:
+            tr = case["two_repos"]
+            h = Harness(root, packages(), tr["groups"])
+            bad = check_two_repos(h, case["cfg"], tr["groups"], tr["order"])
+            return [c["msg"] for c in bad if list(c["pkg"]) == list(case["pkg"]) and c["repo"] == case["repo"]]
         h = Harness(root, packages())
         return [c["msg"] for c in check_config(h, case["cfg"]) if list(c["pkg"]) == list(case["pkg"])]
     finally:
